@@ -71,7 +71,7 @@ PROPS = {
         "required_theorems": ["PgBifrost.Props.C04.batcher_partition_faithful", "PgBifrost.Props.C04.batch_single_key",
                               "PgBifrost.Props.C04.batch_txns_exact", "PgBifrost.Props.C04.txns_global_accounting",
                               "PgBifrost.Props.C04.batcher_never_dead", "PgBifrost.Props.C04.sys_exactly_once",
-                              "PgBifrost.Props.C04.sys_exactly_once_live", "PgBifrost.Props.C04.pipeline_exactly_once", "PgBifrost.Props.C04.batcher_as_in_source", "PgBifrost.Props.C04.update_transactions_as_in_source"],
+                              "PgBifrost.Props.C04.sys_exactly_once_live", "PgBifrost.Props.C04.pipeline_exactly_once", "PgBifrost.Props.C04.batcher_as_in_source", "PgBifrost.Props.C04.update_transactions_as_in_source", "PgBifrost.Props.C04.stdout_worker_as_in_source"],
         "partial": "the batcher/batches part is one unbounded theorem; the composition with filter, partitioner and marshaller "
                    "(each tied by its own correspondence; C08, C06, C10 theorems) and with the workers is decided by the pipeline "
                    "harness monitor Spec.Pipeline.exactlyOnce on the assembled real stages, not by one composed theorem",
